@@ -233,6 +233,26 @@ def _is_calc_error(exc):
 
 def _run_thermo(case, ctx):
     import pygaps
+    ads0 = pygaps.Adsorbate.find(case["ads"])
+    stored_before = copy.deepcopy(dict(ads0.properties))
+    _run_thermo_body(case, ctx)
+    # asking an adsorbate for its thermodynamic data does not rewrite its tabulated properties (they are documented in other units
+    # than the getters return, are exported with it and uploaded with its isotherms)
+    ctx.case(["thermo-leaves-tabulated-properties", case["ads"]])
+    stored_after = dict(ads0.properties)
+    if stored_after != stored_before:
+        changed = sorted(k for k in set(stored_before) | set(stored_after) if stored_before.get(k) != stored_after.get(k))
+        ctx.violation("Adsorbate/getters-rewrite-tabulated-properties", "after its thermodynamic getters were called the adsorbate's tabulated properties have changed", ads=case["ads"], changed=changed,
+                      now={k: stored_after.get(k) for k in changed})
+        for k in changed:  # (restore: the object is shared)
+            if k in stored_before:
+                ads0.properties[k] = stored_before[k]
+            else:
+                ads0.properties.pop(k, None)
+
+
+def _run_thermo_body(case, ctx):
+    import pygaps
     ads = pygaps.Adsorbate.find(case["ads"])
     fl = RU.fluid(ads.properties["backend_name"])
     lo, hi = fl.t_triple(), fl.t_crit()
